@@ -118,7 +118,8 @@ def obs_reader(case):
 
     S = bytes.fromhex(case["S"])
     kw = dict(quitonerror=case.get("quit", 1), errorhandler=lambda e: None, msgmode=case.get("msgmode", 0),
-              validate=case.get("validate", 1), parsebitfield=case.get("pbf", 1), bufsize=case["bufsize"])
+              validate=case.get("validate", 1), parsebitfield=case.get("pbf", 1), bufsize=case["bufsize"],
+              protfilter=case.get("filter", 7), parsing=bool(case.get("parsing", 1)), labelmsm=case.get("labelmsm", 1))
     fkw = dict(kw)
     fkw.pop("bufsize")
     fitems, fpd, _ = _reader_items(io.BytesIO(S), fkw)
